@@ -107,6 +107,8 @@ def run(ctx):
     rule_at(ctx, F)
     rule_wordset(ctx, F)
     rule_eof(ctx, F)
+    rule_step(ctx, F)
+    rule_nocopy(ctx, F)
     import c18
     c18.rule_tailcall(ctx, F)     # multi-token data: the converter is finished once, after the last token
     c18.rule_eofguard(ctx, F)     # ... and a converter past its end-of-data marker takes no further symbol
@@ -1051,3 +1053,72 @@ def rule_eof(ctx, F):
            "Zonefile::load copies its source into the buffer as it is: the reader only ends an entry at a line feed and reports "
            "the end of the buffer as `short buffer` (more data may be appended), so the last record of a file that does not end "
            "in a newline is lost with an error (`a A 192.0.2.1` at the end of the file: `1:14: short buffer`)", b.where(cp[0]))
+
+
+def rule_step(ctx, F):
+    """SourceBuf::next_item looks at one octet at a time: every advance of its cursor is by exactly one octet.  A loop
+    that steps over two (to "skip an escape" inside a comment, say) can step over the line feed that ends the comment --
+    and the next line with it."""
+    R = "C07.step"
+    ctx.floor(R, 4)
+    b = F.one_body(r"^zonefile::inplace::SourceBuf::next_item$")
+    if not ctx.anchor(R, "SourceBuf::next_item", b):
+        return
+    n = 0
+    for bi in sorted(b.reachable_blocks()):
+        if b.blocks[bi].get("c"):
+            continue
+        for st in b.blocks[bi]["s"]:
+            if st[0] == "=" and len(st[1]) > 1 and deep_strip(b.term_of_place(st[1])) == ("field", ("arg", 1), "start"):
+                tm = deep_strip(b.term_of_rvalue(st[2]))
+                n += 1
+                ok = tm[0] == "bin" and tm[1].startswith("Add") and deep_strip(tm[2]) in (("field", ("arg", 1), "start"),) \
+                    and const_value(deep_strip(tm[3])) == 1
+                if not ok and tm[0] == "bin" and tm[1].startswith("Add"):
+                    # `start + 1` seen through the phi of the field (multiply assigned in the loop)
+                    l = deep_strip(tm[2])
+                    ok = const_value(deep_strip(tm[3])) == 1 and (l[0] in ("phi", "field"))
+                ctx.ob(R, b, "cursor advance #%d is by one octet" % n, ok,
+                       "next_item moves its cursor by %s: more than one octet at a time skips octets unseen -- inside a comment the "
+                       "line feed that ends it (a comment ending in a backslash then swallows the next line)" % show(tm)[:80], b.where(bi))
+    ctx.ob(R, b, "cursor advances found", n >= 4, "expected the cursor advances of next_item, found %d" % n, nontrivial=False)
+
+
+def rule_nocopy(ctx, F):
+    """convert_label converts a label in place.  Its no-copy fast path is taken only when the write cursor *is* the read
+    cursor (nothing was shortened so far): the guard is an equality -- with `<=` the path is also taken after an
+    earlier escape has left the write cursor behind, and later labels keep stale octets."""
+    R = "C07.nocopy"
+    ctx.floor(R, 1)
+    b = F.one_body(r"^zonefile::inplace::EntryScanner::<'_>::convert_label$")
+    if not ctx.anchor(R, "EntryScanner::convert_label", b):
+        return
+    hits = []
+    for bi in sorted(b.reachable_blocks()):
+        blk = b.blocks[bi]
+        env = {}
+        for st in blk["s"]:
+            if st[0] != "=" or len(st[1]) != 1:
+                continue
+            rv = st[2]
+            if rv[0] == "use" and rv[1][0] in ("c", "m"):
+                env[st[1][0]] = rv[1][1]
+            if rv[0] == "bin" and rv[1] in ("Eq", "Ne", "Le", "Lt", "Ge", "Gt"):
+                ops = []
+                for o in (rv[2], rv[3]):
+                    pl = env.get(o[1][0], o[1]) if o[0] in ("c", "m") and len(o[1]) == 1 else (o[1] if o[0] in ("c", "m") else None)
+                    ops.append(pl)
+                def is_write(pl):
+                    return pl is not None and pl[0] == 2 and "*" in pl
+                def is_start(pl):
+                    return pl is not None and any(isinstance(x, list) and x[0] == "." and x[2] == "start" for x in pl[1:]) and \
+                        any(isinstance(x, list) and x[0] == "." and x[2] == "buf" for x in pl[1:])
+                if (is_write(ops[0]) and is_start(ops[1])) or (is_write(ops[1]) and is_start(ops[0])):
+                    hits.append((bi, rv[1]))
+    if not ctx.anchor(R, "comparison of the write cursor with the read cursor in convert_label", len(hits) >= 1, b.where()):
+        return
+    for bi, op in hits:
+        ctx.ob(R, b, "the no-copy path needs write == read", op in ("Eq", "Ne"),
+               "convert_label compares the write cursor with the buffer's read position with `%s`: only equality says that "
+               "nothing has been moved yet; otherwise labels behind an escaped one are measured but not copied and the name "
+               "comes out with stale octets (`m\\\\097il.example.com.` reads as `mail.il\\\\.exam...`)" % op, b.where(bi))
